@@ -41,6 +41,9 @@ type dev struct {
 
 func (d dev) String() string { b, _ := json.Marshal(d); return string(b) }
 
+// resumable deviations begin with a restart of the node.
+func (d dev) resumable() bool { return d.Kind == "restart" || d.Kind == "restart+histquery" }
+
 type blockDigest = hist.BlockDigest
 
 func main() {
@@ -136,15 +139,7 @@ func run(r *report.Run, shard, nshards int, replayFile string) {
 	}
 	deadline := r.Deadline(150*time.Second, 27*time.Minute)
 	outcomes := map[string]bool{}
-	for i, d := range devs {
-		if i%nshards != shard {
-			continue
-		}
-		if time.Now().After(deadline) {
-			r.Cap(fmt.Sprintf("deadline: %d of %d deviations executed in shard", i, len(devs)))
-			break
-		}
-		got := h.execute(d)
+	judge := func(i int, d dev, got []blockDigest) {
 		r.States += int64(len(got))
 		r.Transitions += int64(len(got))
 		r.Case(d.String())
@@ -154,9 +149,104 @@ func run(r *report.Run, shard, nshards int, replayFile string) {
 		compare(r, d, base, got)
 		outcomes[got[len(got)-1].Hash] = true
 	}
+	// (1) deviations of a node that keeps running: the whole history is re-executed. Environment,
+	// clock, map-order and seed deviations come first; the (numerous) query rounds at block
+	// boundaries come last, after the restart deviations, and are what a deadline cuts.
+	var resumable, warmBoundary []int
+	hard := time.Now().Add(2 * time.Until(deadline))
+	envCapped := false
+	rank := [3]int{} // deviations are dealt to the shards round-robin within each of the three groups
+	for i, d := range devs {
+		g := 0
+		switch {
+		case d.resumable():
+			g = 1
+		case d.Kind == "query" || d.Kind == "histquery":
+			g = 2
+		}
+		rank[g]++
+		if (rank[g]-1)%nshards != shard {
+			continue
+		}
+		switch g {
+		case 1:
+			resumable = append(resumable, i)
+		case 2:
+			warmBoundary = append(warmBoundary, i)
+		default:
+			if time.Now().After(hard) {
+				if !envCapped {
+					r.Cap(fmt.Sprintf("deadline: environment deviations executed up to index %d of %d in shard", i, len(devs)))
+					envCapped = true
+				}
+				continue
+			}
+			judge(i, d, h.execute(d))
+		}
+	}
+	// (2) deviations that begin with a restart: the node's process state is discarded at that block
+	// boundary anyway, so the twin is a fresh application over a copy of the database taken there
+	// during one more plain execution; only the rest of the history is executed
+	const chunk = 64 // database copies held at a time
+	for c := 0; c < len(resumable); c += chunk {
+		if time.Now().After(hard) {
+			r.Cap(fmt.Sprintf("deadline: %d of %d restart deviations executed in shard", c, len(resumable)))
+			break
+		}
+		part := resumable[c:min(c+chunk, len(resumable))]
+		want := map[int][]int{}
+		last := 0
+		for _, i := range part {
+			want[devs[i].At] = append(want[devs[i].At], i)
+			last = max(last, devs[i].At)
+		}
+		snaps := map[int]*hist.Snapshot{}
+		vehicle, _ := hist.Execute(hist.Hooks{Blocks: last + 1, BeforeBlock: func(bi int, run *hist.Run) {
+			for _, i := range want[bi] {
+				snaps[i] = run.Snapshot(bi)
+				h.snapBytes = max(h.snapBytes, snaps[i].Bytes)
+			}
+		}})
+		for k := range vehicle {
+			if k >= len(base) || vehicle[k].Hash != base[k].Hash {
+				fmt.Fprintf(os.Stderr, "harness error: plain re-execution not reproducible at block %d\n", base[k].Height)
+				os.Exit(2)
+			}
+		}
+		for _, i := range part {
+			d := devs[i]
+			got := append(append([]blockDigest{}, base[:d.At]...), h.resume(d, snaps[i])...)
+			delete(snaps, i)
+			if h.crossChecked < 2 && time.Now().Before(hard) {
+				// the shortcut is validated against the long way: the same deviation with the whole history
+				// re-executed and the application re-created in place must give the same digests
+				h.crossChecked++
+				full := h.execute(d)
+				for k := range full {
+					if k >= len(got) || full[k].Hash != got[k].Hash {
+						fmt.Fprintf(os.Stderr, "harness error: %s resumed from a database copy differs from the full re-execution at block %d\n", d, full[k].Height)
+						os.Exit(2)
+					}
+				}
+			}
+			judge(i, d, got)
+			h.resumed++
+		}
+	}
+	// (3) query rounds served by a node that keeps running
+	for k, i := range warmBoundary {
+		if time.Now().After(deadline) {
+			r.Cap(fmt.Sprintf("deadline: %d of %d query-round deviations executed in shard", k, len(warmBoundary)))
+			break
+		}
+		judge(i, devs[i], h.execute(devs[i]))
+	}
 	r.Extra["deviations_"+fmt.Sprint(shard)] = float64(0)
 	delete(r.Extra, "deviations_"+fmt.Sprint(shard))
 	if shard == 0 {
+		r.Extra["restart_twins_resumed_from_database_copy_in_shard_0"] = float64(h.resumed)
+		r.Extra["database_copy_bytes_max"] = float64(h.snapBytes)
+		r.Extra["restart_twins_cross_checked_against_full_re_execution_in_shard_0"] = float64(h.crossChecked)
 		r.Extra["historical_queries_answered_in_shard_0"] = float64(h.histAnswered)
 		r.Extra["deviations_total"] = float64(len(devs))
 		kinds := map[string]int{}
@@ -195,6 +285,9 @@ type history struct {
 	mapSites      []mapSite // recorded during the baseline in the patched build
 	lastMapCount  int
 	histAnswered  int // queries against historical versions answered without error
+	resumed       int
+	crossChecked  int
+	snapBytes     int
 }
 
 type mapSite struct {
@@ -351,6 +444,32 @@ func (h *history) execute(d dev) []blockDigest {
 		out = append(out, blockDigest{Height: run.PanicAt, Hash: fmt.Sprintf("panic: %v", run.Panic)})
 	}
 	h.txCount, h.txOK = run.TxCount, run.TxOK
+	return out
+}
+
+// resume runs the rest of the history on a fresh application over the database copy sn.
+func (h *history) resume(d dev, sn *hist.Snapshot) []blockDigest {
+	for _, e := range envNames {
+		os.Unsetenv(e)
+	}
+	setClockSkew(0)
+	mapBegin(d, h)
+	defer mapEnd(d, h)
+	out, run := hist.Resume(sn, hist.Hooks{
+		BeforeBlock: func(i int, r *hist.Run) {
+			if d.Kind == "restart+histquery" && d.At == i {
+				last := r.Height - 1
+				h.histAnswered += r.Script.QueriesAt(2, (last+1)/2, last-1)
+			}
+		},
+	})
+	if run.Panic != nil && run.PanicStage == "script" {
+		fmt.Fprintf(os.Stderr, "harness error: script panicked under %s at height %d: %v\n", d, run.PanicAt, run.Panic)
+		os.Exit(2)
+	}
+	if run.Panic != nil {
+		out = append(out, blockDigest{Height: run.PanicAt, Hash: fmt.Sprintf("panic: %v", run.Panic)})
+	}
 	return out
 }
 
